@@ -5,7 +5,9 @@ import (
 	"fmt"
 
 	satisfaction_levels "github.com/Azbesciak/RealDecisionMaker/lib/logic/limited-rationality/satisfaction-levels"
+	"github.com/Azbesciak/RealDecisionMaker/lib/logic/preference-func/electreIII"
 	"github.com/Azbesciak/RealDecisionMaker/lib/model"
+	"github.com/Azbesciak/RealDecisionMaker/lib/utils"
 )
 
 // levels mode: drive the real level iterators that main.go wires to the two threshold heuristics
@@ -73,6 +75,45 @@ func runLevelsCase(c J, ow *obsWriter) {
 	ow.emit(obs)
 }
 
-func runDistilCase(c J, ow *obsWriter)       { die(2, "distil mode not built yet") }
+// distil mode: stage 2 of ELECTRE III on a given credibility matrix through the exported functions
+// RankAscending / RankDescending / EvaluateRanking.
+func runDistilCase(c J, ow *obsWriter) {
+	unit := unitOf(c)
+	d := realise(c["dist"], "", "", unit).(map[string]interface{})
+	rows := d["matrix"].([]interface{})
+	n := len(rows)
+	vals := make([][]float64, n)
+	ids := make(model.Alternatives, n)
+	alts := make([]model.AlternativeWithCriteria, n)
+	for i, r := range rows {
+		rr := r.([]interface{})
+		vals[i] = make([]float64, n)
+		for j, v := range rr {
+			vals[i][j] = v.(float64)
+		}
+		ids[i] = d["alts"].([]interface{})[i].(string)
+		alts[i] = model.AlternativeWithCriteria{Id: ids[i]}
+	}
+	fun := utils.LinearFunctionParameters{A: d["a"].(float64), B: d["b"].(float64)}
+	obs := J{"case": c}
+	var perr interface{}
+	func() {
+		defer func() { perr = recover() }()
+		m := &electreIII.AlternativesMatrix{Alternatives: &ids, Values: electreIII.NewMatrix(&vals)}
+		asc := electreIII.RankAscending(m, &fun)
+		m2 := &electreIII.AlternativesMatrix{Alternatives: &ids, Values: electreIII.NewMatrix(&vals)}
+		desc := electreIII.RankDescending(m2, &fun)
+		rk := electreIII.EvaluateRanking(asc, desc, &alts)
+		obs["result"] = (&projector{unit: 1}).proj(jsonTree(rk), "result")
+	}()
+	if perr != nil {
+		obs["status"] = 400
+		obs["error"] = fmt.Sprint(perr)
+		obs["result"] = []interface{}{}
+	} else {
+		obs["status"] = 200
+	}
+	ow.emit(obs)
+}
 func runHistories(cases []J, ow *obsWriter)  { die(2, "hist mode not built yet") }
 func runConcurrent(cases []J, ow *obsWriter) { die(2, "conc mode not built yet") }
